@@ -74,6 +74,9 @@ func TestVerifC09(t *testing.T) {
 	if g := vGenRoot(); g != "" {
 		sels = append(sels, sel{g, "g_3x1500ms"}, sel{g, "g_1001"})
 	}
+	if x := vGenExtraRoot(); x != "" {
+		sels = append(sels, sel{x, "x_vfr_2000_4000"}) // chunk boundaries must follow the real sample durations
+	}
 	if !quick {
 		sels = append(sels, sel{vBundledRoot, "testpic_6s"})
 	}
@@ -233,7 +236,13 @@ func c09Run(rep *vh.Report, srv *Server, a *vref.VAsset, asset string, r *vref.V
 	if quick && len(ts) > 8 {
 		ts = append(ts[:5], ts[len(ts)-3:]...)
 	}
-	sampleMS := int64(uint64(wS[0].Dur)*1000/r.TS) + 1
+	maxDur := uint64(0)
+	for _, smp := range wS {
+		if uint64(smp.Dur) > maxDur {
+			maxDur = uint64(smp.Dur)
+		}
+	}
+	sampleMS := int64(maxDur*1000/r.TS) + 1 // a chunk ends on a sample boundary: up to the longest sample after its nominal end
 	if r.Kind == "audio" {
 		sampleMS *= 2 // the audio segment itself starts up to one frame after the video segment (C03)
 	}
